@@ -2459,6 +2459,19 @@ pub fn compile<I: BufRead, O: Write>(
         let mut s = i.splitn(2, '=');
         let def = s.next().unwrap();
         let value = s.next().unwrap_or("1");
+        // The name becomes a regular expression: anything but an identifier would never match, loop forever or panic
+        let mut chars = def.chars();
+        let identifier = match chars.next() {
+            Some(c) if c.is_ascii_alphabetic() || c == '_' => {
+                chars.all(|c| c.is_ascii_alphanumeric() || c == '_')
+            }
+            _ => false,
+        };
+        if !identifier {
+            return Err(Error::Configuration {
+                error: format!("Invalid macro name in option -D{}", i),
+            });
+        }
         context.define(def, value);
     }
 
